@@ -10,7 +10,7 @@ ANCHORS = ["sktime/forecasting/compose/_reduce.py", "sktime/forecasting/base/_sk
 RULE = (
     "full product n x window_length x fh (every non-empty subset of {1..4}) x strategy "
     "(direct, recursive, multioutput, dirrec) x scitype (tabular, time-series) x exogenous "
-    "columns {0,1,2} x history {fit->predict, fit->update(batch, update_params False/True)->"
+    "columns {0,1,2} x series dtype {float, int64; rotated with the case index} x history {fit->predict, fit->update(batch, update_params False/True)->"
     "predict}; index start rotated by case index+seed. Oracle: recording regressors + a "
     "plain-loop reference tabulariser + tag-decoding leak monitor. non-trivial = feasible "
     "configuration whose training rows and prediction inputs were compared."
@@ -38,13 +38,16 @@ def gen_cases(tier, seed):
                             for hist in ("fp", "fup", "fUp"):
                                 i += 1
                                 yield dict(n=n, W=W, fh=fh, strategy=strat, sci=sci, nx=nx,
-                                           hist=hist, start=7 if (i + seed) % 2 else 0)
+                                           hist=hist, start=7 if (i + seed) % 2 else 0,
+                                           dtype="int" if (i // 2 + seed) % 2 else "float")
 
 
-def _data(n, nx, start, extra=0):
+def _data(n, nx, start, extra=0, dtype="float"):
     idx = pd.RangeIndex(start, start + n + extra)
     t = np.arange(n + extra, dtype=float)
     y = pd.Series(1000.0 + t, index=idx)
+    if dtype == "int":
+        y = y.astype("int64")  # count data: fed-back (fractional) tokens must not be truncated
     X = None
     if nx:
         X = pd.DataFrame({"x%d" % j: 10000.0 * (j + 1) + t for j in range(nx)}, index=idx)
@@ -86,7 +89,7 @@ def run_case(case):
     doubles.reset_tokens()
     reg = doubles.RecRegressor() if sci == "tab" else doubles.RecTSRegressor()
     extra = 2 if hist != "fp" else 0
-    y_all, X_all = _data(n, nx, start, extra)
+    y_all, X_all = _data(n, nx, start, extra, case.get("dtype", "float"))
     y, X = y_all.iloc[:n], (None if X_all is None else X_all.iloc[:n])
     f = make_reduction(reg, strategy=strat, window_length=W)
     one_step = strat == "recursive"
